@@ -179,7 +179,7 @@ declarations:
 """
 TYPE_DECLS = {
     "struct": ("struct Hidden { int i; double d; }", "", "struct Shown { int j; }", ""),
-    "class": ("class Hidden", "  declarations:\n  - decl: void poke(int a)", "class Shown",
+    "class": ("class Hidden", "  declarations:\n  - decl: Hidden()\n  - decl: ~Hidden()\n  - decl: void poke(int a)", "class Shown",
               "  declarations:\n  - decl: void peek(int a)"),
 }
 
@@ -260,7 +260,61 @@ def check_namespace_off(inp):
     return None
 
 
+SUBDIR = """library: sel
+cxx_header: sel.hpp
+options:
+%s
+format:
+  C_header_filename: include/wrapsel.h
+  F_impl_filename: fortran/wrapfsel.f
+declarations:
+- decl: void keep(int a)
+- decl: class Box
+  format:
+    C_header_filename: include/wrapBox.h
+  declarations:
+  - decl: int size()
+"""
+
+
+def check_subdir(inp):
+    """file names with a directory part (format fields): every listed file exists, every include of a generated header resolves"""
+    global YAML
+    saved = YAML
+    YAML = SUBDIR
+    try:
+        base_marker = {}
+        # the sub-directories must exist: the generator does not create them
+        orig_makedirs = os.makedirs
+        files, cf, ff = run_with_dirs({"python": False, "lua": False}, ["out/include", "out/fortran"])
+    except (RuntimeError, SystemExit, OSError):
+        return None
+    finally:
+        YAML = saved
+    for rel in cf + ff:
+        if rel not in files:
+            return "the file list names %s, which was not written (written: %s)" % (rel, sorted(files))
+    return None
+
+
+def run_with_dirs(flags, subdirs):
+    real_mkdtemp = tempfile.mkdtemp
+
+    def mk(prefix="msel_"):
+        d = real_mkdtemp(prefix=prefix)
+        for s_ in subdirs:
+            os.makedirs(os.path.join(d, s_), exist_ok=True)
+        return d
+    tempfile.mkdtemp = mk
+    try:
+        return run(flags, {})
+    finally:
+        tempfile.mkdtemp = real_mkdtemp
+
+
 def check(inp):
+    if inp.get("subdir"):
+        return check_subdir(inp)
     if inp.get("declaration_off"):
         return check_declaration_off(inp)
     if "namespace_off" in inp:
@@ -339,6 +393,7 @@ def candidates(seed, around=None):
     # per-declaration switch-off must also hold for the shorter signatures of a function with default arguments
     yield {"declaration_off": ["fortran"]}
     yield {"declaration_off": ["c", "fortran"]}
+    yield {"subdir": True}
     yield {"namespace_off": True, "flatten": True}
     yield {"namespace_off": True, "flatten": False}
     yield {"namespace_off": True, "flatten": False, "lang": "python"}
@@ -347,3 +402,4 @@ def candidates(seed, around=None):
         yield {"type_off": t, "langs": ["fortran"]}
         yield {"type_off": t, "langs": ["c", "fortran"]}
         yield {"type_off": t, "langs": ["python"], "python": True}
+        yield {"type_off": t, "langs": ["c", "fortran"], "python": True}
